@@ -36,6 +36,23 @@ subtotals a dimension has (C05-derived-idxs-indexerror, 434a0d94); their witness
     displayed in another order than they are defined in, under payload / explicit / value-sort orders, on
     slice rows, slice columns and strands; coverage is recorded as `ins-id-order[run]: <where> <collation>
     <class>` in the evidence distribution.
+
+(e) READ ORDER (c05_util.check_read_order; added after seeded change C05-9, which folded the two
+    `rows_dimension_fills` into a helper that converts the negative subtotal indexes "vectorised" on
+    `np.asarray(order)` - the cached signed row order itself - so that READING THE FILLS rewrote the reported
+    order in place: afterwards row_order() held offsets >= n_elements, inserted_row_idxs was () with subtotal
+    rows displayed, and row_order(BOGUS_IDS) no longer named what row_order() named; values, labels and fills
+    stayed right, and legs (a)-(d) read the order first and the fills late on a fresh partition).  "Position i
+    of every output refers to the same element" and "re-indexed by the REPORTED order" hold for whichever
+    output a caller reads first, so for every third case number, on the transformed and the untransformed run
+    whose order displays a subtotal (slices and strands), the order-dependent outputs (row_order / column_order
+    in both forms, inserted / derived / diff position lists, labels, codes, aliases, fills, shape, row_count,
+    payload_order; by introspection) are read (1) each as the first read of its own new partition, (2) on a
+    second partition in the sequence of an exporter: fills FIRST, the other headings, the position lists and
+    the extent, the order in both forms last, (3) (transformed run) through common_cases.late_reads: after
+    EVERY public property of another partition read in an order shuffled by the case number; (2) and (3)
+    must give the values of (1), and (3) names the single earlier reads that change an output.  Coverage:
+    `read-order[<schedule>]: <slice|strand> <run>, displayed subtotals on <axes>`.
 """
 import json
 import random
@@ -420,6 +437,8 @@ def run_cases(rep, cases, n_model, rng):
         features(case, rep)
         for key in res["info"].get("renderings", ()):
             rep.dist(key)
+        for key in res["info"].get("read_order", ()):
+            rep.dist(key)
         if case.get("ins_order_class"):
             rep.dist("class=insertion-order (>=2 subtotals per categorical dimension)")
         rep.cov["output_comparisons"] = rep.cov.get("output_comparisons", 0) + res["n"]
@@ -499,6 +518,9 @@ def run(tier, seed):
         "CAT strands, every dimension with 2-3 subtotals (view or transform, ids given / generated / partly "
         "given) defined in another order than their anchors display them, payload / explicit / value-sort order "
         "in rotation, hide, prune - for the leg 'both renderings of the reported order name the same vectors'. "
+        "Every third case number whose (transformed / untransformed) order displays a subtotal is ALSO read in "
+        "other read orders (leg 'read order': each order-dependent output first on its own partition vs. fills "
+        "first .. order last vs. after every public property shuffled by the case number). "
         "non-trivial = the transformed run reorders or removes at least one vector; distinct by content hash")
     rep.assumptions = [
         "the reported row_order()/column_order() of both runs are taken from the implementation (C07/C08/C09 own "
@@ -529,7 +551,7 @@ def replay(path):
         from harness.props import dimtype_legs
         return dimtype_legs.replay_main(PID, case)
     rep = core.Report(PID, "quick", d.get("seed", 0))
-    res = cu.check_pair(case)
+    res = cu.check_pair(case, read_order=True)
     n = report_issues(rep, case, res)
     for i in res["issues"][:10]:
         print("REPLAY issue:", i.kind, i.output, json.dumps(core.jsonable(i.detail))[:600])
